@@ -96,6 +96,10 @@ ALL_TARGETS = QUICK_TARGETS + ["t2", "u2"]
 _cfg = {"quick": True, "phase": "main"}
 OVERLAP_TARGETS_QUICK = ["t1f", "t1l", "jl"]             # non-shared part of block `top` (T1) / bytes shared with the block entered at T2
 OVERLAP_TARGETS_THOROUGH = ["t1f", "t1m", "t1l", "jl", "t2"]
+STRSRC = DATA + 0x10          # source buffer of REP MOVSB
+GS_QUICK = [("nxt", "u1f")]                                                    # gcc only in the quick tier
+GS_THOROUGH = [("nxt", "u1f"), ("nxt", "u1m"), ("nxt", "u1l"), ("nxt", "u2"), ("t2", "t2"), ("t2", "jl")]
+GS_KINDS = ["stosb", "movsb"]
 _P = {}
 
 
@@ -109,7 +113,19 @@ def P():
         expected = bytes.fromhex("bd02000000eb00" "8817" "0504030201" "43" "eb00" "81c188776655" "46" "4d" "75ec" "c3")
         if code != expected:
             raise RuntimeError("C22: unexpected encoding of the fixed program: %s" % code.hex())
-        _P.update(code=code, labels=labels, offs=offs, ins=ins, top=top, nxt=nxt,
+        # guest string-store stubs, appended after the RET as raw bytes: <STOSB | REP MOVSB> ; JMP <nxt | T2>
+        # (a multi-IR-block instruction writes into translated code and the patched code is re-entered right away,
+        # with no other memory-accessing instruction in between)
+        stubs = {}
+        blob = bytearray(code)
+        for dest in ("nxt", "t2"):
+            for kind, enc in (("stosb", b"\xAA"), ("movsb", b"\xF3\xA4")):
+                entry = CODE + len(blob)
+                jmp = entry + len(enc)
+                target = nxt if dest == "nxt" else ins["T2"]
+                blob += enc + bytes([0xEB, (target - (jmp + 2)) & 0xFF])
+                stubs[(kind, dest)] = (entry, jmp)
+        _P.update(code=bytes(blob), labels=labels, offs=offs, ins=ins, top=top, nxt=nxt, stubs=stubs, prog_len=len(code),
                   addr={t: ins[v[0]] + v[1] for t, v in TARGETS.items()})
     return _P
 
@@ -121,12 +137,31 @@ class Ref(object):
 
     def __init__(self, code):
         self.mem = bytearray(code)
-        self.scratch = 0
+        self.data = bytearray(0x40)
         self.regs = dict(REGS0)
         self.regs["ESP"] = 0
         self.pc = CODE
         self.phase = "idle"          # idle | stopped
         self.stops = 0
+
+    @property
+    def scratch(self):
+        return self.data[SCRATCH - DATA]
+
+    def store8(self, a, v):
+        if DATA <= a < DATA + len(self.data):
+            self.data[a - DATA] = v
+        elif CODE <= a < CODE + len(self.mem):
+            self.mem[a - CODE] = v
+        else:
+            raise RuntimeError("reference interpreter: store outside the model")
+
+    def load8(self, a):
+        if DATA <= a < DATA + len(self.data):
+            return self.data[a - DATA]
+        if CODE <= a < CODE + len(self.mem):
+            return self.mem[a - CODE]
+        raise RuntimeError("reference interpreter: load outside the model")
 
     def rd32(self, a):
         return int.from_bytes(self.mem[a - CODE:a - CODE + 4], "little")
@@ -169,14 +204,18 @@ class Ref(object):
                 rel = b1 - 256 if b1 >= 128 else b1
                 self.pc += 2 + rel
             elif b == 0x88 and b1 == 0x17:
-                a = r["EDI"]
-                v = r["EDX"] & 0xFF
-                if a == SCRATCH:
-                    self.scratch = v
-                elif CODE <= a < CODE + len(self.mem):
-                    self.mem[a - CODE] = v
-                else:
-                    raise RuntimeError("reference interpreter: store outside the model")
+                self.store8(r["EDI"], r["EDX"] & 0xFF)
+                self.pc += 2
+            elif b == 0xAA:                               # STOSB (DF = 0)
+                self.store8(r["EDI"], r["EAX"] & 0xFF)
+                r["EDI"] = (r["EDI"] + 1) & M
+                self.pc += 1
+            elif b == 0xF3 and b1 == 0xA4:                # REP MOVSB (DF = 0)
+                while r["ECX"]:
+                    self.store8(r["EDI"], self.load8(r["ESI"]))
+                    r["ESI"] = (r["ESI"] + 1) & M
+                    r["EDI"] = (r["EDI"] + 1) & M
+                    r["ECX"] = (r["ECX"] - 1) & M
                 self.pc += 2
             elif b == 0x05:
                 r["EAX"] = (r["EAX"] + self.rd32(self.pc + 1)) & M
@@ -291,6 +330,10 @@ def events(st):
             if st.trailing_writes == 0:
                 for t in (CBW_QUICK if quick else CBW_THOROUGH):
                     evs.append(("cbw", t))
+                if not quick or st.backend == "gcc":
+                    for dest, t in (GS_QUICK if quick else GS_THOROUGH):
+                        for kind in GS_KINDS:
+                            evs.append(("gs", kind, dest, t))
     if st.trailing_writes >= (1 if quick else 2) or st.ran:
         # writes are only interesting when a run follows: histories are  seed ; <= 1 (quick) / 2 (thorough) writes ; runs
         # (a write after a partial run is what the half-translated / fully-translated seeds are for)
@@ -381,7 +424,7 @@ def apply(st, ev):
         st.ran = True
         st.gos += 1
     cont = ref.phase == "stopped"
-    st.passthrough = k in ("run", "cbw", "enter")
+    st.passthrough = k in ("run", "cbw", "enter", "gs")
     st.ended = False
     st.cb_write = None
     if k == "cbw":
@@ -394,7 +437,23 @@ def apply(st, ev):
             jit.continue_run()
         else:
             entry = p["ins"]["T2"] if k == "enter" else CODE
-            ref.start(st.sp0 - 4, entry, 1 if k == "enter" else None)
+            saved = (ref.regs["EDI"], ref.regs["EDX"])
+            if k == "gs":
+                # guest write by a string instruction: <STOSB | REP MOVSB> ; JMP <nxt | T2>, one pass (EBP = 1) to END
+                _, kind, dest, t = ev
+                entry = p["stubs"][(kind, dest)][0]
+                a, v = _toggle_value(st, t)
+                st.writes.append("guest-%s:%s:%s" % (kind, TARGETS[t][3], _block_state(st, t)))
+            ref.start(st.sp0 - 4, entry, 1 if k in ("enter", "gs") else None)
+            if k == "gs":
+                ref.regs["EDI"] = a
+                if kind == "stosb":
+                    ref.regs["EAX"] = (REGS0["EAX"] & ~0xFF) | v
+                else:
+                    src = bytes([v, ref.load8(a + 1)])
+                    jit.vm.set_mem(STRSRC, src)
+                    ref.data[STRSRC - DATA:STRSRC - DATA + 2] = src
+                    ref.regs["ESI"], ref.regs["ECX"] = STRSRC, 2
             for r in GPR:
                 if r != "ESP":
                     setattr(jit.cpu, r, ref.regs[r])
@@ -425,17 +484,22 @@ def apply(st, ev):
     regs = {r: getattr(jit.cpu, r) for r in GPR}
     bad = [r for r in GPR if regs[r] != ref.regs[r]]
     mem = jit.vm.get_mem(CODE, len(p["code"]))
-    scratch = jit.vm.get_mem(SCRATCH, 1)[0]
+    data = jit.vm.get_mem(DATA, len(ref.data))
+    scratch = data[SCRATCH - DATA]
     if bad:
         st.broken = True
         probs.append(("stale-code:%s:%s" % (skel, ",".join(bad)),
                       "after %s: %s; the reference (instructions fetched from the current bytes) has %s; %s" % (
                           k, ", ".join("%s=%#x" % (r, regs[r]) for r in bad), ", ".join("%s=%#x" % (r, ref.regs[r]) for r in bad), _ctx(st))))
-    if bytes(mem) != bytes(ref.mem) or scratch != ref.scratch:
+    if bytes(mem) != bytes(ref.mem) or bytes(data) != bytes(ref.data):
         st.broken = True
         probs.append(("memory-differs:%s" % skel, "code window %s / scratch %#x, reference %s / %#x; %s" % (
             bytes(mem).hex(), scratch, bytes(ref.mem).hex(), ref.scratch, _ctx(st))))
     st.writes = []
+    if k == "gs" and not cont:
+        # the string stub has used EDI (and EAX / ESI / ECX): the host puts the armed plain store back for later runs
+        ref.regs["EDI"], ref.regs["EDX"] = saved
+        jit.cpu.EDI, jit.cpu.EDX = saved
     return probs
 
 
@@ -530,6 +594,12 @@ def _gcc_jobs(quick):
                                (p["ins"]["U2"], offs[-1]), (offs[-1], None)):
                 key = (start, img[start - CODE:(end - CODE) if end else None])
                 jobs.setdefault(key, ("x86_32", img, CODE, start, (end,) if end else (), 50))
+        for (kind, dest), (entry, jmp) in sorted(p["stubs"].items()):
+            if quick and dest not in {d for d, _ in GS_QUICK}:
+                continue
+            for ml in mls:
+                jobs.setdefault((entry, b"stub%d" % ml), ("x86_32", img, CODE, entry, (), ml))   # the stub (ml=1: the store alone)
+                jobs.setdefault((jmp, b"stub%d" % ml), ("x86_32", img, CODE, jmp, (), ml))       # resumed after the write was noticed
         if 1 in mls:
             for k, o in enumerate(offs):
                 end = offs[k + 1] if k + 1 < len(offs) else None
